@@ -15,7 +15,21 @@ def _ref(plan):
 
 
 def _oracle(obs, case):
-    return oracles.c03_same_data(obs, _ref(case["plan"]))
+    tags = list(oracles.c03_same_data(obs, _ref(case["plan"])))
+    # The two known in-flight defects (a 'monitor' / a 'read' whose response the plan uses, interrupted while being processed)
+    # get a context of their own, whichever of the interruptions hit it and whatever its kind, so that the known-finding
+    # entries stay few and mask nothing else ('!' = do not append the generic context).
+    ints = oracles.interruptions(obs)
+    inflight = {obs.msgs[x[1] - 1].command for x in ints if x[4] and 0 < x[1] <= len(obs.msgs)}
+    out = []
+    for t in tags:
+        if "-raised-" in t and not t.startswith("!"):
+            if "monitor" in inflight and "IllegalMessageSequence" in t:
+                t = "!" + t + "@interrupted-during-monitor"
+            elif "read" in inflight and ("TypeError" in t or "KeyError" in t):
+                t = "!" + t + "@interrupted-during-read"
+        out.append(t)
+    return out
 
 
 SYM = ("plan index (built-in step plans and hand plans incl. nested run keys), pump step k1 in [0, T+3] of a pause or a 1 s suspension, resume after every pause; "
